@@ -796,6 +796,37 @@ def _other_writers(mod, counter, lock, conn):
     return out
 
 
+def _new_allocates(path, mod):
+    """every way _HttpConnBase.__init__ obtains an implementation object for an address builds a new one:
+    each `parent_conn = …` other than `parent_conn = conn_data` is a direct call of the class _HttpConnImpl,
+    which has no __new__ and no metaclass -> (bool, reason)"""
+    import ast
+    base = _find_code(mod, "_HttpConnBase")
+    impl = _find_code(mod, "_HttpConnImpl")
+    binit = _find_code(base, "__init__") if base is not None else None
+    if binit is None or impl is None:
+        return False, "_HttpConnBase.__init__ / _HttpConnImpl not found"
+    ins = [(i.opname, i.argval) for i in dis.get_instructions(binit) if i.opname not in ("CACHE", "RESUME")]
+    stores = sum(1 for o, a in ins if (o, a) == ("STORE_FAST", "parent_conn"))
+    direct = 0
+    for k, (o, a) in enumerate(ins):
+        if (o, a) == ("STORE_FAST", "parent_conn") and k > 0 and ins[k - 1][0] in ("CALL", "CALL_FUNCTION_EX"):
+            j = k - 1
+            while j >= 0 and ins[j][0] != "LOAD_GLOBAL":
+                j -= 1
+            if j >= 0 and ins[j] == ("LOAD_GLOBAL", "_HttpConnImpl"):
+                direct += 1
+    if stores < 2 or direct != stores - 1:
+        return False, "_HttpConnBase.__init__ gets an implementation object otherwise than by calling _HttpConnImpl(...)"
+    if any(hasattr(c, "co_code") and c.co_name in ("__new__", "__init_subclass__", "__class_getitem__") for c in impl.co_consts):
+        return False, "_HttpConnImpl customises object creation"
+    tree = ast.parse(open(path).read())
+    cls = next((c for c in tree.body if isinstance(c, ast.ClassDef) and c.name == "_HttpConnImpl"), None)
+    if cls is None or cls.keywords or cls.bases or cls.decorator_list:
+        return False, "_HttpConnImpl has bases / a metaclass / decorators"
+    return True, ""
+
+
 def _check_order(req):
     """the order of the steps of do_request the hand-written model relies on: request arguments are built from
     the caller's values, the adapters process them, the headers are unpacked, then the id branch, then the
@@ -844,6 +875,7 @@ def analyse(repo):
             a.update(_extract_branch(req, a["counter"]))
             a["init"] = _extract_hdr_init(_load_codes.mod, path)
             _check_order(req)
+            a["allocates"], a["allocates_why"] = _new_allocates(path, _load_codes.mod)
             a["writers"] = _other_writers(_load_codes.mod, a["counter"], a["lock"], a["conn"])
             a["kinds"], a["kinds_why"] = _extract_kinds(path, _load_codes.mod)
         except Exception as e:
@@ -894,6 +926,9 @@ def translate(repo):
             "/-- methods reachable from a request, other than `_generate_request_id`, that assign the counter, the lock",
             "or the connection part (e.g. a reset in an error handler of `do_request`) -/",
             "def otherWriters : List (List Char) := [" + ", ".join('"%s".toList' % w for w in a["writers"]) + "]",
+            "/-- a connection made from an address (string, list or dict) always gets a new `_HttpConnImpl`%s -/"
+            % ("" if a["allocates"] else " — NOT: " + a["allocates_why"]),
+            "def newAllocates : Bool := %s" % ("true" if a["allocates"] else "false"),
             "def cfg : Cfg := { prog := reqIdProgram, fmt := idFormat, test := hdrTest, name := hdrName,",
             "                   init := hdrInit, kinds := wrapKinds }",
             "end Gen.C16", ""]
@@ -1055,7 +1090,8 @@ class Forced:
     """runs `bodies[k]()` in real threads; inside the code objects `codes` a thread advances only when
     the schedule says so, one bytecode instruction per step"""
 
-    def __init__(self, codes, bodies):
+    def __init__(self, codes, bodies, raw=False):
+        self.raw = raw             # workers are raw `_thread` threads the `threading` module does not know
         self.codes = set(codes)
         self.n = len(bodies)
         self.bodies = bodies
@@ -1133,9 +1169,13 @@ class Forced:
         """sched: [(thread, steps)]; returns 'ok' | 'deadlock' | 'hang'"""
         _CUR[0] = self
         for k in range(self.n):
-            th = threading.Thread(target=self._worker, args=(k,), daemon=True)
-            self.threads.append(th)
-            th.start()
+            if self.raw:
+                import _thread
+                _thread.start_new_thread(self._worker, (k,))
+            else:
+                th = threading.Thread(target=self._worker, args=(k,), daemon=True)
+                self.threads.append(th)
+                th.start()
         try:
             for t in range(self.n):            # prologue: up to the first traced instruction
                 self._give(t, 0)
@@ -1159,6 +1199,11 @@ class Forced:
                         pass
             for th in self.threads:
                 th.join(timeout=5.0)
+            if self.raw:
+                import time
+                t_end = time.time() + 5.0
+                while not all(self.done) and time.time() < t_end:
+                    time.sleep(0.0005)
             _CUR[0] = None
         return status
 
@@ -1167,11 +1212,11 @@ class Forced:
 THEOREMS = [
     "C16.program_ok", "C16.locked_unique", "C16.locked_gap_free", "C16.locked_in_order", "C16.par_ids",
     "C16.par_total", "C16.genSeq_ok", "C16.format_ok", "C16.format_injective", "C16.header_test_ok",
-    "C16.caller_id", "C16.constructors_share", "C16.derived_shares", "C16.program_fuel", "C16.request_auto",
-    "C16.test_covers", "C16.no_other_writer", "C16.hdr_init_ok", "C16.request_spec", "C16.auth_chain_keeps",
-    "C16.request_supplied_id", "C16.request_caller_id", "C16.request_auto_sent", "C16.par_world",
-    "C16.par_link", "C16.parCore_total", "C16.outcome_keeps_number", "C16.request_cases",
-    "C16.history_ids_distinct", "C16.history_from_scratch",
+    "C16.caller_id", "C16.new_allocates_ok", "C16.new_fresh_counter", "C16.constructors_share",
+    "C16.derived_shares", "C16.program_fuel", "C16.request_auto", "C16.test_covers", "C16.no_other_writer",
+    "C16.hdr_init_ok", "C16.request_spec", "C16.auth_chain_keeps", "C16.request_supplied_id",
+    "C16.request_caller_id", "C16.request_auto_sent", "C16.par_world", "C16.par_link", "C16.parCore_total",
+    "C16.outcome_keeps_number", "C16.request_cases", "C16.history_ids_distinct", "C16.history_from_scratch",
 ]
 
 
@@ -1291,11 +1336,15 @@ class _Capture:
         # building the default opener loads the system's TLS certificates (25 ms per connection); the
         # opener is never used for real, its `open` is the function above
         self._q = patch("urllib.request.build_opener", lambda *handlers: director())
+        import ssl
+        self._r = patch("ssl.create_default_context", lambda *a, **k: ssl.SSLContext(ssl.PROTOCOL_TLS_CLIENT))
         self._p.start()
         self._q.start()
+        self._r.start()
         return self
 
     def __exit__(self, *a):
+        self._r.stop()
         self._q.stop()
         self._p.stop()
 
@@ -1326,8 +1375,8 @@ class _Real:
             return f["cp_line"] + v[len(real):]
         return v
 
-    def new(self, cp, ids, form="str"):
-        addr = "http://host.example"
+    def new(self, cp, ids, form="str", addr="h"):
+        addr = ADDRESSES.get(addr, ADDRESSES["h"])
         if not ids:
             data = [addr, False] if form == "list" else {"address": addr, "_send_request_ids": False}
         elif form == "list":
@@ -1426,6 +1475,8 @@ class _Real:
         return None if fail == "raw" else "nothing"
 
 
+ADDRESSES = {"h": "http://host.example", "s": "https://host.example", "sp": "https://host.example:8443",
+             "S": "HTTPS://Host.Example"}
 AUTH_ARGS = {"bauth": ("user", "pw"), "token": ("tok",), "client": ("cn", "cid", "cs")}
 
 
@@ -1502,7 +1553,8 @@ def _run_lines(case):
             d = {"kind": tok[0] if tok else "?"}
             try:
                 if tok[0] == "new":
-                    k = w.new(dec_str(tok[1]), tok[2] == "1", tok[3] if len(tok) > 3 else "str")
+                    k = w.new(dec_str(tok[1]), tok[2] == "1", tok[3] if len(tok) > 3 else "str",
+                              tok[4] if len(tok) > 4 else "h")
                     d.update(fam=w.conns[k][1], ids=tok[2] == "1")
                     replies.append("ok %d" % k)
                 elif tok[0] == "wrap":
@@ -1555,7 +1607,7 @@ def _run_lines(case):
                         got = [w.canon(fam, v) for v in cap.take()]
                         d.update(fam=fam, sent=got, n=n, supplied=list(w.id_values[c]))
                         replies.append("ok %s %s" % (_show(got[0]), _show(got[-1])) if got else "ok none none")
-                elif tok[0] in ("par", "parw"):
+                elif tok[0] in ("par", "parw", "parraw"):
                     replies.append(_run_par(w, cap, tok, d, gen_code))
                 elif tok[0] == "enum":
                     replies.append("none")
@@ -1602,7 +1654,7 @@ def _run_par(w, cap, tok, d, gen_code):
                 w.send(rc, hdrs, "get", fails[k][j])
         return run
 
-    f = Forced(codes, [body(k) for k in range(len(threads))])
+    f = Forced(codes, [body(k) for k in range(len(threads))], raw=tok[0] == "parraw")
     status = f.run(sched)
     out, extra = [], []
     for k, t in enumerate(threads):
@@ -1670,7 +1722,7 @@ def oracle(case, replies):
         if d.get("kind") == "new":
             fams[d["fam"]] = {"ids": set(), "next": None, "enabled": d["ids"], "dead": False}
             continue
-        if d.get("kind") not in ("req", "burst", "par", "parw") or "fam" not in d:
+        if d.get("kind") not in ("req", "burst", "par", "parw", "parraw") or "fam" not in d:
             continue
         st = fams.get(d["fam"])
         if st is None or not st["enabled"] or st["dead"]:
@@ -1819,14 +1871,18 @@ def wrap_line(parent, kind, value=None):
     return "wrap %d %s %s" % (parent, kind, "none" if a is None else "auth:" + enc_str(a))
 
 
-def _prelude(rng, lines, nfam_max=2, p_dicts=0.4):
+def _prelude(rng, lines, nfam_max=3, p_dicts=0.4):
     """new/wrap/dict lines; returns ({family: (ids, [connection indices])}, number of caller dicts)"""
     fams = {}
     nconn = 0
     for f in range(rng.randrange(1, nfam_max + 1)):
         ids = 1 if f == 0 or rng.random() < 0.7 else 0
         form = rng.choice(["str", "str", "slash", "list", "dict"])
-        lines.append("new %s %d %s" % (enc_str(rng.choice(CPS)), ids, form))
+        if f == 0:
+            addr0 = rng.choice(sorted(ADDRESSES))
+        # independent connections of one scenario go to the same server (equal or equivalent address) half the time
+        addr = addr0 if rng.random() < 0.5 else rng.choice(sorted(ADDRESSES))
+        lines.append("new %s %d %s %s" % (enc_str(rng.choice(CPS)), ids, form, addr))
         mine = [nconn]
         auth = {nconn: False}          # two authenticating layers are rejected by the adapters themselves
         nconn += 1
@@ -1915,7 +1971,8 @@ def _par_line(rng, conns, kind, L, A, R, nthreads=None, p_none=0.8, dicts=()):
     spec = "|".join("." if not t else "+".join(
         "%d@%s%s" % (c, src, "!" + rng.choice(GEN_FAILS) if rng.random() < 0.1 else "") for c, src, _ in t)
         for t in threads)
-    return "par %d %s %s" % (conns[0], spec, enc_sched(_sched(rng, kind, nthreads, nreq, L, A, R)))
+    op = "parraw" if rng.random() < 0.25 else "par"       # parraw: workers the `threading` module does not know
+    return "%s %d %s %s" % (op, conns[0], spec, enc_sched(_sched(rng, kind, nthreads, nreq, L, A, R)))
 
 
 SCHED_KINDS = ["random", "random", "random", "rr1", "grid", "grid", "critical", "critical", "blocks", "empty"]
@@ -1947,6 +2004,15 @@ def corpus():
             lines += [wrap_line(p, kind), "req %d _" % n, "req %d _" % p, "req 0 _"]
             n += 1
     out.append({"lines": lines, "meta": {"kind": "corpus-constructors"}})
+    # independent (not derived) connections to the same server, equal or equivalent addresses of every scheme:
+    # each counts on its own, gap-free
+    for addr in sorted(ADDRESSES):
+        lines = ["new %s 1 str %s" % (x, addr), "new %s 1 str %s" % (enc_str("ffff"), addr),
+                 "new %s 1 slash %s" % (enc_str("9a0c"), addr), "new %s 1 dict %s" % (enc_str("dead"), addr)]
+        for c in (0, 1, 0, 2, 1, 3, 0, 1, 2, 3, 0):
+            lines.append("req %d _" % c)
+        lines += ["par 0 0@_|0@_ 0*4,1*9", "req 1 _", "parraw 1 1@_|1@_ 0*6,1*3", "req 0 _", "req 1 _"]
+        out.append({"lines": lines, "meta": {"kind": "corpus-independent-connections"}})
     # ids supplied through an adapter of the caller's: sent as they are, no number is taken
     out.append({"lines": ["new %s 1" % x, wrap_line(0, "idset", "Zfrom-adapter"), wrap_line(0, "idpolite", "Zpolite"),
                           wrap_line(1, "bauth"), "req 0 _", "req 1 _", "req 2 _", "req 0 _", "req 3 _ post",
@@ -2052,9 +2118,10 @@ def gen_cases(rng, tier):
     # exhaustive small scope: two threads, one call each on a brand-new connection, each stopped at every position
     for a in range(0, L + 1):
         for b in range(0, L + 1):
-            yield {"lines": ["new %s 1" % enc_str("ab12"), wrap_line(0, "bauth"),
-                             "par 0 0@_|1@_ 0*%d,1*%d" % (a, b), "req 0 _"],
-                   "meta": {"kind": "par-grid2-fresh"}}
+            for op in (["par", "parraw"] if not quick else ["parraw" if (a + b) % 2 else "par"]):
+                yield {"lines": ["new %s 1" % enc_str("ab12"), wrap_line(0, "bauth"),
+                                 "%s 0 0@_|1@_ 0*%d,1*%d" % (op, a, b), "req 0 _"],
+                       "meta": {"kind": "par-grid2-fresh"}}
     if not quick:
         for a in range(0, L + 1, 4):
             for b in range(0, L + 1, 4):
@@ -2113,6 +2180,12 @@ def search_cases(rng, tier):
     yield {"lines": ["log debug", "new %s 1" % x, wrap_line(0, "bauth"), "req 0 _", "req 1 _ post",
                      "req 0 %s" % enc_hdrs([("x-request-id", "Zown")]), "par 0 0@_|1@_ 0*5", "req 0 _"],
            "meta": {"kind": "search-debug-logging"}}
+    # 2b3. several independent connections to one server
+    for addr in sorted(ADDRESSES):
+        for form2 in ("str", "slash"):
+            yield {"lines": ["new %s 1 str %s" % (x, addr), "new %s 1 %s %s" % (enc_str("ffff"), form2, addr),
+                             "req 0 _", "req 1 _", "req 0 _", "req 1 _", "req 0 _"],
+                   "meta": {"kind": "search-independent-connections"}}
     # 2c. requests that fail in the opener, then more requests
     for kind in sorted(FAILURES):
         for c in (0, 1):
@@ -2124,6 +2197,9 @@ def search_cases(rng, tier):
         for b in range(0, L + 3):
             yield {"lines": ["new %s 1" % x, "par 0 0@_|0@_ 0*%d,1*%d" % (a, b), "req 0 _"],
                    "meta": {"kind": "search-grid2"}}
+            if (a + b) % 2 == 0:
+                yield {"lines": ["new %s 1" % x, "parraw 0 0@_|0@_ 0*%d,1*%d" % (a, b), "req 0 _"],
+                       "meta": {"kind": "search-grid2-raw-threads"}}
     for a in range(0, L + 3, 2):
         for b in range(0, L + 3, 2):
             yield {"lines": ["new %s 1" % x, "par 0 0@_+0@_|0@_+0@_ 0*%d,1*%d,0*%d,1*%d" % (a, b, L, L), "req 0 _"],
@@ -2152,7 +2228,7 @@ def _refs(line):
         conns.add(int(t[1]))
         if t[2].startswith("#"):
             dicts.add(int(t[2][1:]))
-    elif t[0] in ("par", "parw"):
+    elif t[0] in ("par", "parw", "parraw"):
         conns.add(int(t[1]))
         for th in t[2].split("|"):
             for r in ([] if th == "." else th.split("+")):
@@ -2173,11 +2249,11 @@ def shrink(case):
                 and not (which == 0 and len(made) == 1):
             yield {"lines": lines[:made[-1]] + lines[made[-1] + 1:], "meta": meta}
     for i in range(len(lines) - 1, -1, -1):
-        if lines[i].split()[0] in ("req", "burst", "par", "parw", "log"):
+        if lines[i].split()[0] in ("req", "burst", "par", "parw", "parraw", "log"):
             yield {"lines": lines[:i] + lines[i + 1:], "meta": meta}
     for i, l in enumerate(lines):
         tok = l.split()
-        if tok[0] in ("par", "parw"):
+        if tok[0] in ("par", "parw", "parraw"):
             runs = [] if tok[3] == "-" else tok[3].split(",")
             for j in range(len(runs)):
                 yield {"lines": lines[:i] + [" ".join(tok[:3] + [",".join(runs[:j] + runs[j + 1:]) or "-"])] + lines[i + 1:],
@@ -2203,7 +2279,7 @@ def nontrivial(case, replies):
     n = 0
     for l, r in zip(case["lines"], replies):
         t = l.split()[0]
-        if t in ("par", "parw") and "|" in l.split()[2]:
+        if t in ("par", "parw", "parraw") and "|" in l.split()[2]:
             return True
         if t == "burst" or (t == "req" and r.startswith("sent ") and r != "sent none"):
             n += 1
@@ -2213,6 +2289,7 @@ def nontrivial(case, replies):
 def tags(case, replies):
     yield case.get("meta", {}).get("kind", "?")
     dicts, used, parent_kind = [], {}, {}
+    seen_addr = set()
     nconn = 0
     for l, r in zip(case["lines"], replies):
         t = l.split()
@@ -2225,6 +2302,8 @@ def tags(case, replies):
             parent_kind[nconn] = "base"
             nconn += 1
             yield "new:form=" + (t[3] if len(t) > 3 else "str") + (":ids" if t[2] == "1" else ":no-ids")
+            yield "new:addr=" + (t[4] if len(t) > 4 else "h") + (":again" if (t[4] if len(t) > 4 else "h") in seen_addr else "")
+            seen_addr.add(t[4] if len(t) > 4 else "h")
         elif t[0] == "req":
             ref = t[2].startswith("#")
             pairs = dicts[int(t[2][1:])] if ref and int(t[2][1:]) < len(dicts) else [] if ref else dec_hdrs(t[2])
@@ -2241,8 +2320,10 @@ def tags(case, replies):
                 yield "req:with-body"
             if len(t) > 4:
                 yield "req:opener-fails:" + t[4]
-        elif t[0] in ("par", "parw"):
+        elif t[0] in ("par", "parw", "parraw"):
             yield "par:threads=%d" % len(t[2].split("|"))
+            if t[0] == "parraw":
+                yield "par:raw-threads"
             yield "par:reply=" + r.split()[0] + (":" + r.split()[1] if r.startswith("err") else "")
             if "#" in t[2]:
                 yield "par:caller-dict"
@@ -2255,7 +2336,8 @@ def tags(case, replies):
             nconn += 1
 
 
-RULE = ("sequential scenarios (1-2 connection families built from 4 forms of conn_data, derived connections of 5 kinds "
+RULE = ("sequential scenarios (1-3 independent connection families, half of them to the same server (http / https / "
+        "other port / other capitalisation, with and without trailing slash), built from 4 forms of conn_data, derived connections of 5 kinds "
         "over every kind of parent, 3-25 requests with no / unrelated / near-miss / caller-supplied id headers in many "
         "capitalisations, passed in a dict built for the call or in one of 1-3 dicts the caller keeps and passes "
         "again (also through other connections of the family and concurrently), with and without a json body, "
@@ -2265,7 +2347,7 @@ RULE = ("sequential scenarios (1-2 connection families built from 4 forms of con
         "effective for the module's logger, answers (200) whose processing fails after the request went out "
         "(body not JSON / not UTF-8, a rejecting response adapter; raw_response=True as the control), "
         "bursts across 9999->10000), "
-        "forced interleavings of 2-4 real threads x 0-3 requests inside the real _generate_request_id (random runs, "
+        "forced interleavings of 2-4 real threads (a quarter of them raw _thread threads unknown to `threading`) x 0-3 requests inside the real _generate_request_id (random runs, "
         "round robin, everybody stopped inside the locked section / in the prologue of its first call, whole-call "
         "blocks, stop positions grid; every third scenario on a connection that has never been used), "
         "all pairs of stop positions for 2 threads on a brand-new connection. non-trivial = a par line with >= 2 threads "
@@ -2296,7 +2378,9 @@ LEVEL_TEXT = ("Proved in Lean for every program of the WellLocked shape, any num
               "same dict. derived_shares: for EVERY connection class of the source (constructors_share, read from "
               "the constructors' bytecode) a derived connection refers to its parent's implementation object. "
               "Obligations re-decided from the source on every run: program_ok, format_ok, header_test_ok, "
-              "hdr_init_ok, constructors_share, no_other_writer (nothing a request reaches except "
+              "hdr_init_ok, constructors_share, new_allocates_ok (a connection made from an address always gets "
+              "a new implementation object - no pooling per server; new_fresh_counter: it counts from 0 on its own "
+              "and nothing that existed changes), no_other_writer (nothing a request reaches except "
               "_generate_request_id assigns counter / lock / connection part: a request that fails in the opener "
               "keeps its number, and the logging helpers do not modify the request they log), program_fuel. request_supplied_id: an id present after the adapters ran (the "
               "caller's header or one put there by an adapter of the caller's) is sent and takes no number. "
